@@ -19,6 +19,7 @@ import concurrent.futures as cf
 import io
 import os
 import random
+import re
 import time
 
 from . import common, tlc
@@ -244,9 +245,11 @@ def varname_lines(F):
     F.to_file(out, export_header=False, export_varnames=True)
     names = []
     for line in out.getvalue().splitlines():
-        t = line.split(" ", 3)
-        if len(t) >= 3 and t[0] in ("c", "*") and t[1] == "varname":
-            names.append((t[2], t[3] if len(t) > 3 else ""))
+        # "c varname <id> <name>": the blanks between the fields are layout (ids may be aligned in a column);
+        # one blank separates the id from the name, which is taken verbatim
+        m = re.match(r"^[c*][ \t]+varname[ \t]+(\S+)(?: (.*))?$", line)
+        if m:
+            names.append((m.group(1), m.group(2) or ""))
     return names
 
 
